@@ -241,8 +241,6 @@ func oracle(w *out.W, sc scenario, recs []stepRec) {
 		if !S.OK {
 			lastGone := last != nil && last.Applied < last.Total && rec.dir.find(last.Ver) == nil
 			switch {
-			case S.Err == "notclean" && st.HasTable && last == nil && st.Dirty:
-				// Report runs Pending without --allow-dirty: refused like a first apply would be
 			case (strings.HasPrefix(S.Err, "missing:") || strings.HasPrefix(S.Err, "filenotfound:")) && lastGone:
 			default:
 				w.Violation(sc.id, "status-failed", "status gave no answer: "+desc(i))
